@@ -586,6 +586,10 @@ def r6(repo, run):
                 if e.kind == 'call' and e.attr in adders and e.attr != nm:
                     n_add += 1
                     sv = e.kw.get('safe')
+                    if sv is None and isinstance(e.node, ast.Call) and (any(k_.arg is None for k_ in e.node.keywords) or any(isinstance(a_, ast.Starred) for a_ in e.node.args)):
+                        # the options travel as **mapping / *sequence: which value `safe` gets is decided by evaluation
+                        # (unitrules.add_multiple_sources_table), not read off the call
+                        continue
                     if sv is None or not any(isinstance(x_, ast.Name) and x_.id == 'safe' for x_ in ast.walk(sv.ast)):
                         run.violation('C07.R6', tr.where(mf, e), norm(e.node)[:90], 'Builder.%s adds a source with safe=%s: its own `safe` argument is not what the source is parsed under' % (nm, sv.text[:40] if sv is not None else '<nothing>'), node=e.node)
                         break
